@@ -213,6 +213,14 @@ func (en *Engine) external(st *State, fr *Frame, x *ssa.Call, name string, calle
 			}
 		}
 	}
+	// acquiring a lock is where other goroutines' writes become visible: whatever the object that owns the mutex held
+	// before may have been replaced meanwhile, so later loads are new values (a re-check under the lock is not decided by
+	// what was read before it)
+	if (name == "(*sync.RWMutex).Lock" || name == "(*sync.RWMutex).RLock" || name == "(*sync.Mutex).Lock") && len(args) == 1 {
+		if fa, ok := args[0].(*FieldAddrV); ok {
+			en.havoc(st, fa.X)
+		}
+	}
 	switch {
 	case ct != nil:
 		// encoding/xml never assigns a field tagged xml:"-": what the target held there before the decode is still there
